@@ -791,6 +791,12 @@ impl<P: RuntimeProvider + Send + Sync> SqliteZoneHandler<P> {
                     //  RR.
 
                     // zone     rrset    rr       Add to an RRset
+                    if rr.record_type() == RecordType::SOA && rr_name != *self.origin() {
+                        // "If the TYPE is SOA and there is no Zone SOA RR [...] the Update RR is
+                        // ignored": a zone has exactly one SOA, at its apex.
+                        info!("ignoring SOA add off the zone apex: {rr:?}");
+                        continue;
+                    }
                     info!("upserting record: {rr:?}");
                     let upserted = self.in_memory.upsert(rr.clone(), serial).await;
 
